@@ -1,7 +1,8 @@
-/- C34 driver: `C34 cond <t0> [op,…]`, `C34 condspec [op,…]`, `C34 event [op,…]`, `C34 eventspec [op,…]` -/
+/- C34 driver: `C34 cond <t0> [op,…]`, `C34 condspec [op,…]`, `C34 event [op,…]`, `C34 eventspec [op,…]`.
+An op is a primitive op of `Model.lean`, `[multi,[call,…]]` or (Event) `[fireMulti,[call,…]]` (`Multi.lean`). -/
 import TornadoModel.Base.Wire
 import TornadoModel.C33.Drv
-import TornadoModel.C34.Spec
+import TornadoModel.C34.Multi
 namespace TornadoModel.C34.Drv
 open TornadoModel TornadoModel.Wire TornadoModel.C34
 open TornadoModel.C33.Drv (encF encEv decDeadline)
@@ -30,6 +31,36 @@ def decEOp (v : V) : Option Event.Op := do
   | [.atom "raceCancel", w] => pure (.raceCancel (← w.nat?))
   | _ => none
 
+def decCCall (v : V) : Option Cond.Call := do
+  let l ← v.list?
+  match l with
+  | [.atom "wait", d] => pure (.wait (← decDeadline d))
+  | [.atom "notify", n] => pure (.notify (← n.nat?))
+  | [.atom "notifyAll"] => pure .notifyAll
+  | [.atom "cancel", w] => pure (.cancel (← w.nat?))
+  | _ => none
+
+def decECall (v : V) : Option Event.Call := do
+  let l ← v.list?
+  match l with
+  | [.atom "wait", d] => pure (.wait (← decDeadline d))
+  | [.atom "set"] => pure .set
+  | [.atom "clear"] => pure .clear
+  | [.atom "isSet"] => pure .isSet
+  | [.atom "cancel", w] => pure (.cancel (← w.nat?))
+  | _ => none
+
+def decCOp2 (v : V) : Option Cond.Op2 :=
+  match v with
+  | .list [.atom "multi", cs] => (cs.list? >>= (·.mapM decCCall)).map .multi
+  | _ => (decCOp v).map .prim
+
+def decEOp2 (v : V) : Option Event.Op2 :=
+  match v with
+  | .list [.atom "multi", cs] => (cs.list? >>= (·.mapM decECall)).map .multi
+  | .list [.atom "fireMulti", cs] => (cs.list? >>= (·.mapM decECall)).map .fireMulti
+  | _ => (decEOp v).map .prim
+
 def encRes : Res → V
   | .unit => .atom "U"
   | .bool b => V.ofBool b
@@ -41,30 +72,60 @@ def encEOut (o : Event.Out) : V :=
   .list [encRes o.res, .list (o.evs.map encEv), V.ofBool o.isSet, .int o.nwaiters, .int o.ntimers]
 def encSOut (o : Spec.Out) : V := .list [encRes o.res, .list (o.evs.map encEv)]
 
+/-- per call of a compound op: result and the observers right after the call -/
+def encCCall (o : Cond.COut) : V := .list [encRes o.res, .int o.nwaiters, .int o.timeouts, .int o.ntimers]
+def encECall (o : Event.COut) : V := .list [encRes o.res, V.ofBool o.isSet, .int o.nwaiters, .int o.ntimers]
+
+/-- a compound op answers `[[M, op result, call…], evs, observers…]` -/
+def encCOut2 : Cond.Out2 → V
+  | .prim o => encCOut o
+  | .multi o =>
+    .list [.list (.atom "M" :: encRes .unit :: o.calls.map encCCall), .list (o.evs.map encEv), .int o.nwaiters,
+           .int o.timeouts, .int o.ntimers]
+def encEOut2 : Event.Out2 → V
+  | .prim o => encEOut o
+  | .multi o =>
+    .list [.list (.atom "M" :: encRes o.res :: o.calls.map encECall), .list (o.evs.map encEv), V.ofBool o.isSet,
+           .int o.nwaiters, .int o.ntimers]
+
+/-- Spec side: a primitive op answers `[res, evs]`, a compound op `[[M, op result, res…], evs]` -/
+def encSOut2 (isPrim : Bool) (o : Res × List Res × List TornadoModel.C33.Ev) : V :=
+  if isPrim then .list [encRes o.1, .list (o.2.2.map encEv)]
+  else .list [.list (.atom "M" :: encRes o.1 :: o.2.1.map encRes), .list (o.2.2.map encEv)]
+
+def cIsPrim : Cond.Op2 → Bool
+  | .prim _ => true
+  | _ => false
+def eIsPrim : Event.Op2 → Bool
+  | .prim _ => true
+  | _ => false
+
 def handle (toks : List String) : String :=
   match toks.mapM V.parse with
   | none => err "bad-arg"
   | some args =>
     match args with
     | [.atom "cond", t0, ops] =>
-      match t0.nat?, ops.list? >>= (·.mapM decCOp) with
+      match t0.nat?, ops.list? >>= (·.mapM decCOp2) with
       | some t0, some ops =>
-        let (s, outs) := Cond.run (Cond.init t0) ops
-        ok [.list (outs.map encCOut), .list (s.futs.map encF)]
+        let (s, outs) := Cond.run2 (Cond.init t0) ops
+        ok [.list (outs.map encCOut2), .list (s.futs.map encF)]
       | _, _ => err "bad-op"
     | [.atom "condspec", ops] =>
-      match ops.list? >>= (·.mapM decCOp) with
-      | some ops => ok [.list ((Spec.Cond.run Spec.Cond.init ops).2.map encSOut)]
+      match ops.list? >>= (·.mapM decCOp2) with
+      | some ops =>
+        ok [.list (List.zipWith (fun op o => encSOut2 (cIsPrim op) o) ops (Spec.Cond.run2 Spec.Cond.init ops).2)]
       | _ => err "bad-op"
     | [.atom "event", ops] =>
-      match ops.list? >>= (·.mapM decEOp) with
+      match ops.list? >>= (·.mapM decEOp2) with
       | some ops =>
-        let (s, outs) := Event.run Event.init ops
-        ok [.list (outs.map encEOut), .list (s.futs.map encF)]
+        let (s, outs) := Event.run2 Event.init ops
+        ok [.list (outs.map encEOut2), .list (s.futs.map encF)]
       | _ => err "bad-op"
     | [.atom "eventspec", ops] =>
-      match ops.list? >>= (·.mapM decEOp) with
-      | some ops => ok [.list ((Spec.Event.run Spec.Event.init ops).2.map encSOut)]
+      match ops.list? >>= (·.mapM decEOp2) with
+      | some ops =>
+        ok [.list (List.zipWith (fun op o => encSOut2 (eIsPrim op) o) ops (Spec.Event.run2 Spec.Event.init ops).2)]
       | _ => err "bad-op"
     | _ => err "bad-cmd"
 
